@@ -1475,3 +1475,219 @@ func (d *drv) slotPathStream() {
 		}
 	}
 }
+
+// ------------------------------------- (ix) member names: case variants, duplicates
+// encoding/json matches member names to struct fields case-insensitively and lets the
+// last occurrence win; a check that inspects a member under its exact name only is
+// bypassed by "Siblings", "SIBLINGS", or a second member after a harmless first one.
+type rawVariant struct {
+	why  string
+	body []byte
+}
+
+// nameVariants: raw texts of doc in which the merkle proof at pos (and the member
+// holding it) is respelled / duplicated, with hostile sibling lists.
+func nameVariants(doc map[string]any, pos jpath) []rawVariant {
+	var out []rawVariant
+	mtpV, ok := jget(doc, pos)
+	mtp := asMap(mtpV)
+	if !ok || mtp == nil {
+		return nil
+	}
+	nz := make([]string, 241)
+	for i := range nz {
+		nz[i] = fmt.Sprintf(`"%d"`, i+1)
+	}
+	hostile := map[string]string{"null-sibling": `[null]`, "nonzero-241": "[" + strings.Join(nz, ",") + "]"}
+	harmless := string(mustJSON(mtp["siblings"]))
+	// (a) inside the proof object
+	d1 := cloneMap(doc)
+	m1v, _ := jget(d1, pos)
+	asMap(m1v)["siblings"] = "@@S@@"
+	b1 := mustJSON(d1)
+	pat := []byte(`"siblings":"@@S@@"`)
+	if bytes.Count(b1, pat) != 1 {
+		return nil
+	}
+	sub := func(why, text string) {
+		out = append(out, rawVariant{why, bytes.Replace(b1, pat, []byte(text), 1)})
+	}
+	for hn, h := range hostile {
+		for _, name := range []string{"Siblings", "SIBLINGS", "sIbLiNgS"} {
+			sub(hn+":"+name, fmt.Sprintf(`"%s":%s`, name, h))
+			sub(hn+":siblings-then-"+name, fmt.Sprintf(`"siblings":%s,"%s":%s`, harmless, name, h))
+			sub(hn+":"+name+"-then-siblings", fmt.Sprintf(`"%s":%s,"siblings":%s`, name, h, harmless))
+		}
+		sub(hn+":duplicate-hostile-last", fmt.Sprintf(`"siblings":%s,"siblings":%s`, harmless, h))
+		sub(hn+":duplicate-hostile-first", fmt.Sprintf(`"siblings":%s,"siblings":%s`, h, harmless))
+		sub(hn+":unknown-member", fmt.Sprintf(`"siblings":%s,"siblingz":%s,"x":{"siblings":%s}`, harmless, h, h))
+	}
+	sub("Existence", fmt.Sprintf(`"siblings":%s,"Existence":false,"EXISTENCE":true`, harmless))
+	sub("existence-kind-dup", fmt.Sprintf(`"siblings":%s,"existence":"yes","Existence":true`, harmless))
+	sub("Node_Aux", fmt.Sprintf(`"siblings":%s,"Node_Aux":{"Key":"1"},"NODE_AUX":{}`, harmless))
+	sub("node_aux-dup", fmt.Sprintf(`"siblings":%s,"node_aux":{"key":"1","value":"2"},"node_aux":{"key":null}`, harmless))
+	// (b) the member holding the proof
+	parentKey, _ := pos[len(pos)-1].(string)
+	if parentKey != "" {
+		d2 := cloneMap(doc)
+		jset(d2, pos, "@@M@@")
+		b2 := mustJSON(d2)
+		pat2 := []byte(fmt.Sprintf(`"%s":"@@M@@"`, parentKey))
+		if bytes.Count(b2, pat2) == 1 {
+			good := string(mustJSON(mtp))
+			for hn, h := range hostile {
+				bm := cloneMap(mtp)
+				bm["siblings"] = "@@S@@"
+				bad := strings.Replace(string(mustJSON(bm)), `"@@S@@"`, h, 1)
+				up, title := strings.ToUpper(parentKey), strings.ToUpper(parentKey[:1])+parentKey[1:]
+				for _, v := range []struct{ why, text string }{
+					{up, fmt.Sprintf(`"%s":%s`, up, bad)}, {title, fmt.Sprintf(`"%s":%s`, title, bad)},
+					{parentKey + "-then-" + up, fmt.Sprintf(`"%s":%s,"%s":%s`, parentKey, good, up, bad)},
+					{up + "-then-" + parentKey, fmt.Sprintf(`"%s":%s,"%s":%s`, up, bad, parentKey, good)},
+					{"duplicate-hostile-last", fmt.Sprintf(`"%s":%s,"%s":%s`, parentKey, good, parentKey, bad)},
+					{"duplicate-hostile-first", fmt.Sprintf(`"%s":%s,"%s":%s`, parentKey, bad, parentKey, good)},
+					{"null-then-hostile", fmt.Sprintf(`"%s":null,"%s":%s`, parentKey, title, bad)},
+				} {
+					out = append(out, rawVariant{hn + ":holder:" + v.why, bytes.Replace(b2, pat2, []byte(v.text), 1)})
+				}
+			}
+		}
+	}
+	return out
+}
+
+func respell(b []byte, key string) [][]byte {
+	var out [][]byte
+	old := []byte(`"` + key + `":`)
+	if bytes.Count(b, old) == 0 {
+		return nil
+	}
+	for _, n := range []string{strings.ToUpper(key), strings.ToUpper(key[:1]) + key[1:]} {
+		out = append(out, bytes.ReplaceAll(b, old, []byte(`"`+n+`":`)))
+	}
+	return out
+}
+
+type rawInput struct {
+	Stream string `json:"stream"` // raw-decode
+	Target string `json:"target"`
+	Why    string `json:"why"`
+	Body   []byte `json:"body"`
+	Nonce  uint64 `json:"nonce,omitempty"`
+}
+
+// decodeRawCase: raw bytes into the named type, compared with the decoding skeleton
+func (d *drv) decodeRawCase(target, why string, body []byte) {
+	o := decodeInto(target, body)
+	in := rawInput{Stream: "raw-decode", Target: target, Why: why, Body: body}
+	d.mu.Lock()
+	d.rep.Evaluations++
+	d.rep.Count("raw-decode:" + target + ":" + o.Class)
+	d.rep.Distinct("raw:" + target + string(body))
+	d.mu.Unlock()
+	if o.Class == "panic" || o.Class == "hang" {
+		d.fail("json.Unmarshal("+target+")", o, in)
+	}
+	sch := map[string]*schema{"W3CCredential": credS, "CredentialProofs": proofsS, "DIDDocument": didS, "RevocationStatus": statusS,
+		"GistInfoProof": gistS, "IssuerData": issuerS}[target]
+	c, err := canonBytes(body, sch)
+	if err != nil || sch == nil {
+		return
+	}
+	var term string
+	switch target {
+	case "W3CCredential":
+		term = "ICred " + credJ(asMap(c))
+	case "CredentialProofs":
+		term = "IProofs " + proofsJ(c)
+	case "DIDDocument":
+		term = "IDidDoc " + didDocJ(asMap(c))
+	case "RevocationStatus":
+		term = "IStatusJ " + statusJ(asMap(c))
+	case "GistInfoProof":
+		term = "IGist " + gistJ(asMap(c))
+	default:
+		return
+	}
+	d.addCase(lit(term), o.Class, in)
+}
+
+func (d *drv) memberNameStream() {
+	type job struct {
+		target string
+		v      rawVariant
+		arte   func(body []byte) *Arte // non-nil: also through VerifyProof
+		nonce  uint64
+	}
+	var jobs []job
+	for _, b := range d.bundles[:2] {
+		b := b
+		for _, pos := range []jpath{{"proof", 0, "mtp"}, {"proof", 0, "issuerData", "mtp"}} {
+			for _, v := range nameVariants(b.Cred, pos) {
+				jobs = append(jobs, job{target: "W3CCredential", v: v, arte: func(body []byte) *Arte { a := b.Arte(); a.CredRaw = body; return a }})
+			}
+		}
+		// the holder of the holder: "issuerData" / "proof" respelled
+		plain := mustJSON(b.Cred)
+		for _, key := range []string{"issuerData", "state", "proof", "coreClaim", "type"} {
+			for i, body := range respell(plain, key) {
+				body := body
+				jobs = append(jobs, job{target: "W3CCredential", v: rawVariant{fmt.Sprintf("respell:%s:%d", key, i), body}, arte: func([]byte) *Arte { a := b.Arte(); a.CredRaw = body; return a }})
+			}
+		}
+		for _, v := range nameVariants(map[string]any{"proof": clone(b.Cred["proof"])}, jpath{"proof", 0, "mtp"}) {
+			// the proofs alone: strip the wrapper
+			body := bytes.TrimSuffix(bytes.TrimPrefix(v.body, []byte(`{"proof":`)), []byte(`}`))
+			jobs = append(jobs, job{target: "CredentialProofs", v: rawVariant{v.why, body}})
+		}
+		for _, v := range nameVariants(b.Status, jpath{"mtp"}) {
+			v := v
+			jobs = append(jobs, job{target: "RevocationStatus", v: v, nonce: b.Nonce})
+			if b.Kind == "BJJSignature2021" {
+				jobs = append(jobs, job{target: "", v: v, arte: func(body []byte) *Arte { a := b.Arte(); a.StatusRaw = &rawAnswer{Code: 200, Body: body}; return a }})
+			}
+		}
+		for _, v := range nameVariants(b.DIDDoc, jpath{"didDocument", "verificationMethod", 0, "global", "proof"}) {
+			v := v
+			jobs = append(jobs, job{target: "", v: v, arte: func(body []byte) *Arte { a := b.Arte(); a.DIDRaw = &rawAnswer{Code: 200, Body: body}; return a }})
+		}
+		for _, v := range nameVariants(asMap(b.DIDDoc["didDocument"]), jpath{"verificationMethod", 0, "global", "proof"}) {
+			jobs = append(jobs, job{target: "DIDDocument", v: v})
+		}
+		for _, v := range nameVariants(map[string]any{"g": clone(b.Gist)}, jpath{"g"}) {
+			if !strings.Contains(v.why, ":holder:") {
+				body := bytes.TrimSuffix(bytes.TrimPrefix(v.body, []byte(`{"g":`)), []byte(`}`))
+				jobs = append(jobs, job{target: "GistInfoProof", v: rawVariant{v.why, body}})
+			}
+		}
+		if id := asMap(asMap(b.Cred["proof"].([]any)[0])["issuerData"]); id != nil && id["mtp"] != nil {
+			for _, v := range nameVariants(id, jpath{"mtp"}) {
+				jobs = append(jobs, job{target: "IssuerData", v: v})
+			}
+		}
+	}
+	parallel(len(jobs), func(i int) {
+		j := jobs[i]
+		d.mu.Lock()
+		d.rep.Count("member-names:" + strings.SplitN(j.v.why, ":", 2)[0])
+		d.mu.Unlock()
+		if j.target != "" {
+			d.decodeRawCase(j.target, j.v.why, j.v.body)
+		}
+		if j.target == "RevocationStatus" {
+			o := runStatusRaw(&rawAnswer{Code: 200, Body: j.v.body}, j.nonce, "")
+			in := resolverInput{Stream: "status-resolver", Why: "member-names:" + j.v.why, Answer: &rawAnswer{Code: 200, Body: j.v.body}, Nonce: j.nonce}
+			d.mu.Lock()
+			d.rep.Evaluations++
+			d.mu.Unlock()
+			if o.Class == "panic" || o.Class == "hang" {
+				d.fail("ValidateCredentialStatus(IssuerResolver)", o, in)
+			}
+			d.addCase(lit("IStatus "+StatusFRaw(&Arte{StatusRaw: in.Answer}, j.nonce)), o.Class, in)
+		}
+		if j.arte != nil {
+			a := j.arte(j.v.body)
+			d.verifyCase(a, verifyInput{Stream: "verify", Arte: a.copy()}, true)
+		}
+	})
+}
